@@ -84,6 +84,10 @@ struct Value {
                     fprintf(stderr, "parse error, unclosed [bracket (expected: ']') in \"%s\"\n", args_string);
                     exit(1);
                 }
+                // i is now just past the closing bracket: resume the scan at that character (a separator, a comment,
+                // another bracket, or more of this token) instead of judging it by the bracket just consumed
+                i--;
+                continue;
             }
             if (i == args_len || (ch == ']' || ch == ' ' || ch == '\t' || ch == '\n' || ch == '\r' || ch == '#')) {
                 if (start == i) {
